@@ -12,10 +12,10 @@ RULES_OF = {
     "C01": {"use-before-def", "topological", "complete", "unknown-statement"},
     "C02": None,   # every rule, backend c
     "C03": None,   # every rule, backend jax
-    "C04": {"unpack-slot", "store-slot", "store-twice", "lengths-stored", "lengths-returned", "store-before-alloc"},
+    "C04": {"unpack-slot", "store-slot", "store-twice", "lengths-stored", "lengths-returned", "store-before-alloc", "layout-from-sort"},
     "C05": {"store-slot", "store-twice", "lengths-stored"},
     "C07": {"scheme-choice", "store-slot"},
-    "C12": {"use-before-def", "unpack-slot", "store-slot", "lengths-stored", "lengths-returned", "topological", "complete"},
+    "C12": {"use-before-def", "unpack-slot", "store-slot", "lengths-stored", "lengths-returned", "topological", "complete", "layout-from-sort"},
     "C13": {"unpack-slot", "store-slot", "use-before-def", "lengths-stored", "lengths-returned"},
     "C19": {"redefinition"},
 }
